@@ -99,5 +99,9 @@ func (t *floatScalar) CoerceOut(v interface{}) (interface{}, error) {
 		v = nil
 		err = newCoerceErr(tv, "Float")
 	}
+	if f, ok := v.(float32); ok && err == nil && (math.IsNaN(float64(f)) || math.IsInf(float64(f), 0)) {
+		// Not a finite number or too large for a float32.
+		return nil, newCoerceErr(f, "Float")
+	}
 	return v, err
 }
